@@ -98,6 +98,11 @@ def cases(ctx):
             c['table2'] = [['k', 'b']] + [[rng.choice(pool), 's%d' % r] for r in range(rng.randint(0, 5))]
         if which == 'issorted':
             c['strict'] = rng.random() < 0.4
+            if rng.random() < 0.35:
+                # whole rows may repeat (no distinguishing id): a strict order must still reject equal neighbours
+                for r_ in t[1:]:
+                    r_[2] = 'same'
+                    r_[1] = pool[0]
             if rng.random() < 0.5:
                 # make it (nearly) sorted so that both verdicts are frequent
                 idx = gen.resolve_key(t[0], c['key']) if c['key'] is not None else [0, 1, 2]
